@@ -300,7 +300,7 @@ Fixpoint type_of (e : cexpr) : ety :=
   | EConvert T i => convert_result (type_of i) T
   | EConvertTypeParam inst i =>
       (* "Converting a constant to a type parameter yields a non-constant value of that type";
-         every type in the type set of ~string admits a conversion from a string-typed operand *)
+         every type in the type set of ~string allows a conversion from a string-typed operand *)
       match type_of i with
       | TyUntyped KString => TyValue inst
       | TyConst t | TyValue t => if is_string_t (underlying t) then TyValue inst else TyError
